@@ -77,12 +77,16 @@ package dir
 // Go's range over a map visits every key before it ends (the engine models each iteration as "some key of
 // the map"; that the enumeration is complete is this listed assumption).
 //@   at next#0 assume !res0 ==> (forall k string :: haskey(files, k) ==> visited[k])
-//@   at before call Symlink#0 assert [C18.complete.all] forall k string :: haskey(files, k) ==> (fsExists[pjoin(newDir, k)] && !fsIsDir[pjoin(newDir, k)] && !fsIsLink[pjoin(newDir, k)] && fsSrc[pjoin(newDir, k)] == files[k])
-//@   at before call Symlink#0 assert [C18.complete.only] forall q string :: (fsExists[q] && pdir(q) == newDir && q != newDir) ==> haskey(files, pbase(q))
-//@   at before call Symlink#0 ghost fsComplete = update(fsComplete, newDir, true)
+//@   at before call Remove#0 assert [C18.complete.all] forall k string :: haskey(files, k) ==> (fsExists[pjoin(newDir, k)] && !fsIsDir[pjoin(newDir, k)] && !fsIsLink[pjoin(newDir, k)] && fsSrc[pjoin(newDir, k)] == files[k])
+//@   at before call Remove#0 assert [C18.complete.only] forall q string :: (fsExists[q] && pdir(q) == newDir && q != newDir) ==> haskey(files, pbase(q))
+//@   at before call Remove#0 ghost fsComplete = update(fsComplete, newDir, true)
 //
 // The two spellings of target + ".new".
-//@   at before call Symlink#0 ghost tnew = arg1
-//@   at before call Symlink#0 assert isDotNew(d.target, tnew)
+//@   at before call Remove#0 ghost tnew = arg0
+//@   at before call Remove#0 assert isDotNew(d.target, tnew)
+//@   at call Remove assert [C18.crash.remove] fsCI(fsExists, fsIsLink, fsLink, fsIsDir, fsComplete, d.target, d.base)
+//@   at call Remove assert [C18.cr.remove] old(fsCRx(fsExists, fsIsLink, fsIsDir, d.target, d.base)) ==> fsCRx(fsExists, fsIsLink, fsIsDir, d.target, d.base)
+//@   at before call Symlink#0 assert len(arg1) == len(tnew) && (forall i :: arg1[i] == tnew[i])
+//@   at before call Symlink#0 assert arg1 == tnew
 //@   at before call Rename#0 assert len(arg0) == len(tnew) && (forall i :: arg0[i] == tnew[i])
 //@   at before call Rename#0 assert arg0 == tnew
